@@ -148,12 +148,14 @@ func checkC16(r *Run) int {
 	}
 	refBytes := ref.Res.Stdout
 	accepted := map[int]string{}
+	allAccepted := map[int][]string{}
 	spellReport := map[string]interface{}{}
 	for pi, p := range probes {
 		m := pmeta[pi]
 		ok := p.Res.ExitCode == 0 && bytes.Equal(p.Res.Stdout, refBytes)
 		spellReport[opts[m.opt].name+"/"+opts[m.opt].spellings[m.sp]] = ok
 		if ok {
+			allAccepted[m.opt] = append(allAccepted[m.opt], opts[m.opt].spellings[m.sp])
 			if _, have := accepted[m.opt]; !have {
 				accepted[m.opt] = opts[m.opt].spellings[m.sp]
 			}
@@ -178,44 +180,64 @@ func checkC16(r *Run) int {
 		k = 4
 	}
 	var execs []*gExec
+	// every accepted spelling of an option is explored: the first accepted one everywhere, each
+	// further one in its own spelling vector (executions that come out identical are run once)
+	spellVecs := [][]string{spelling}
+	for _, i := range usable {
+		for _, sp := range allAccepted[i][1:] {
+			v := append([]string{}, spelling...)
+			v[i] = sp
+			spellVecs = append(spellVecs, v)
+		}
+	}
+	r.Extra["spelling_vectors"] = len(spellVecs)
 	for li, lc := range logical {
 		cfg = lc
 		lref := mkExec(allYAML, spelling, fmt.Sprintf("L%d all-YAML", li))
 		refs = append(refs, lref)
-		seen := map[string]bool{}
-		for _, baseVal := range []int{chYAML, chParam} {
-			base := make([]int, len(opts))
-			for i := range base {
-				base[i] = chYAML
-			}
-			for _, i := range usable {
-				base[i] = baseVal
-			}
-			var rec func(start, dev int, cur []int)
-			rec = func(start, dev int, cur []int) {
-				key := fmt.Sprint(cur)
-				if !seen[key] {
-					seen[key] = true
-					e := mkExec(cur, spelling, fmt.Sprintf("L%d assign=%s", li, key))
-					refByExec[e] = lref
-					execs = append(execs, e)
+		seenExec := map[string]bool{}
+		for svi, spelling := range spellVecs {
+			seen := map[string]bool{}
+			for _, baseVal := range []int{chYAML, chParam} {
+				base := make([]int, len(opts))
+				for i := range base {
+					base[i] = chYAML
 				}
-				if dev == k {
-					return
+				for _, i := range usable {
+					base[i] = baseVal
 				}
-				for ui := start; ui < len(usable); ui++ {
-					i := usable[ui]
-					for v := chYAML; v <= chBothConflict; v++ {
-						if v == base[i] {
-							continue
+				var rec func(start, dev int, cur []int)
+				rec = func(start, dev int, cur []int) {
+					key := fmt.Sprint(cur)
+					if !seen[key] {
+						seen[key] = true
+						e := mkExec(cur, spelling, fmt.Sprintf("L%d assign=%s", li, key))
+						if svi > 0 {
+							e.Label += fmt.Sprintf(" spellings=%d", svi)
 						}
-						n := append([]int{}, cur...)
-						n[i] = v
-						rec(ui+1, dev+1, n)
+						if ek := e.YAML + "\x00" + e.Param; !seenExec[ek] {
+							seenExec[ek] = true
+							refByExec[e] = lref
+							execs = append(execs, e)
+						}
+					}
+					if dev == k {
+						return
+					}
+					for ui := start; ui < len(usable); ui++ {
+						i := usable[ui]
+						for v := chYAML; v <= chBothConflict; v++ {
+							if v == base[i] {
+								continue
+							}
+							n := append([]int{}, cur...)
+							n[i] = v
+							rec(ui+1, dev+1, n)
+						}
 					}
 				}
+				rec(0, 0, base)
 			}
-			rec(0, 0, base)
 		}
 	}
 	cfg = cfg1
@@ -257,7 +279,11 @@ func checkC16(r *Run) int {
 			var devs []string
 			var a []int
 			_ = a
-			lab := strings.Trim(e.Label[strings.Index(e.Label, "assign=")+len("assign="):], "[]")
+			lab := e.Label[strings.Index(e.Label, "assign=")+len("assign="):]
+			if j := strings.Index(lab, "]"); j >= 0 {
+				lab = lab[:j]
+			}
+			lab = strings.Trim(lab, "[]")
 			for oi, v := range strings.Fields(lab) {
 				if v != "0" {
 					devs = append(devs, opts[oi].name+"="+map[string]string{"1": "param", "2": "both-equal", "3": "both-conflicting"}[v])
